@@ -5,7 +5,7 @@ EXTENDS DocxOrderImpl
 CONSTANT MaxB
 Pp  == [k |-> "P", ch |-> << [w |-> "r", a |-> <<"t">>] >>, lvl |-> 0, how |-> "", num |-> "", tb |-> NoTbl]
 Tb(mp) == [k |-> "TBL", ch |-> <<>>, lvl |-> 0, how |-> "", num |-> "",
-           tb |-> [rows |-> 1, cols |-> 1, hm |-> <<>>, vm |-> <<>>, mp |-> mp]]
+           tb |-> [rows |-> 1, cols |-> 1, hm |-> <<>>, vm |-> <<>>, mp |-> mp, rc |-> <<>>]]
 Sh == {Pp, Tb(<<>>), Tb(<< <<1, 1>> >>)}
 ImplDocs == {[fmt |-> "docx", body |-> b, hdr |-> 0, ftr |-> 0] : b \in UNION {[1..n -> Sh] : n \in 1..MaxB}}
 =============================================================================
